@@ -135,7 +135,21 @@ def generate():
     else:
         raise AnchorError('ANCHOR NOT FOUND: filter(): unrecognised body of the matching branch: ' + inner)
 
-    out = HDR % 'src/qtlogger/filters/categoryfilter.cpp, src/qtlogger/logmessage.h'
+    # --- the object's state: the model's CategoryFilter object is its parsed rule list and nothing else
+    # (obj_state / obj_step in CategoryDefs.v): one data member, no mutable member, no writable static storage
+    hdr = strip_comments(rd('filters/categoryfilter.h'))
+    cls = need(re.search(r'class\s+(?:\w+\s+)?CategoryFilter\s*:\s*public\s+Filter\s*\{(.*?)\n\};', hdr, re.S),
+               'categoryfilter.h: class CategoryFilter : public Filter { ... };').group(1)
+    decls = [re.sub(r'^(?:(?:public|private|protected)\s*:\s*)+', '', flat(d).strip()) for d in cls.split(';')]
+    members = [d for d in decls if d and '(' not in d and not re.match(r'(?:struct|class|using|friend|typedef|enum)\b', d)]
+    need(members == ['QList<QSharedPointer<Rule>> m_rules'],
+         'categoryfilter.h: the only data member of CategoryFilter is QList<QSharedPointer<Rule>> m_rules (the object model keeps no other '
+         'state between two filter() calls), found: ' + ' | '.join(members))
+    need(not re.search(r'\bmutable\b', hdr + s), 'CategoryFilter: no mutable member / lambda (filter() keeps no state)')
+    need(not re.search(r'\b(?:static|thread_local)\b(?!\s+const\b)(?!\s+constexpr\b)', s),
+         'categoryfilter.cpp: no writable object with static or thread storage duration (filter() keeps no state)')
+
+    out = HDR % 'src/qtlogger/filters/categoryfilter.cpp, src/qtlogger/filters/categoryfilter.h, src/qtlogger/logmessage.h'
     out += 'Require Import List NArith.\nImport ListNotations.\nRequire Import QtlVerif.CategoryDefs.\nLocal Open Scope N_scope.\n'
     out += '(* rule regex: %s *)\n' % rx.replace('*)', '* )').replace('(*', '( *').replace('"', "''")
     out += 'Definition src_cfg : cat_cfg := {|\n'
